@@ -253,7 +253,12 @@ async fn main() {
                 edits.push((r.below(3) as u8, *r.pick(&top_targets)));
             }
         }
-        let alt_contents: Vec<Vec<u8>> = contents.iter().map(|c| { let mut x = c.clone(); x.extend_from_slice(b"!replaced"); x }).collect();
+        // other content for every name: half of them of the same length (one byte changed), half longer
+        let alt_contents: Vec<Vec<u8>> = contents.iter().enumerate().map(|(i, c)| {
+            let mut x = c.clone();
+            if c.is_empty() || i % 2 == 1 { x.extend_from_slice(b"!replaced"); } else { x[0] ^= 0x5a; }
+            x
+        }).collect();
         let alt_input = w.join("input-alt");
         for (nm, c) in names.iter().zip(alt_contents.iter()) {
             let p = alt_input.join(nm);
@@ -288,7 +293,7 @@ async fn main() {
         // ---- phase A: the owner creates the repository
         let base_dir = w.join("base");
         let mut final_meta: Option<PathBuf> = None;
-        let phase_a: Result<(), String> = async {
+        let phase_a: Result<tough::editor::signed::SignedRepository, String> = async {
             let mut ed = RepositoryEditor::new(&root_path).await.map_err(|e| err_class(&e))?;
             for ti in &top_targets {
                 let t = Target::from_path(target_of(*ti)).await.map_err(|e| format!("from_path: {e}"))?;
@@ -303,9 +308,10 @@ async fn main() {
             let keys_a: Vec<usize> = if owner_short && nroles == 0 { owner_keys_full[1..].to_vec() } else { owner_keys_full.clone() };
             let signed = ed.sign(&sources(&pool, &keys_a)).await.map_err(|e| err_class(&e))?;
             signed.write(base_dir.join("metadata")).await.map_err(|e| format!("write: {e}"))?;
-            Ok(())
+            Ok(signed)
         }.await;
-        let a_ok = step("create", phase_a, &mut steps);
+        let mut final_signed: Option<tough::editor::signed::SignedRepository> = None;
+        let a_ok = step("create", match phase_a { Ok(sr) => { final_signed = Some(sr); Ok(()) } Err(e) => Err(e) }, &mut steps);
         if a_ok { final_meta = Some(base_dir.join("metadata")); }
 
         // ---- phase B: delegations through the cross-party flow
@@ -315,7 +321,7 @@ async fn main() {
             let murl = url::Url::from_directory_path(base_dir.join("metadata")).unwrap();
             let loaded = tough::RepositoryLoader::new(&root_bytes, murl.clone(), murl.clone()).load().await;
             let final_dir = w.join("final");
-            let phase_b: Result<(), String> = async {
+            let phase_b: Result<tough::editor::signed::SignedRepository, String> = async {
                 let repo = loaded.map_err(|e| format!("load base: {e}"))?;
                 let mut ed = RepositoryEditor::from_repo(&root_path, repo).await.map_err(|e| err_class(&e))?;
                 ed.targets_version(NonZeroU64::new(versions[0] + 1).unwrap()).map_err(|e| err_class(&e))?
@@ -416,9 +422,10 @@ async fn main() {
                 let keys_b: Vec<usize> = if owner_short { owner_keys_full[1..].to_vec() } else { owner_keys_full.clone() };
                 let signed = ed.sign(&sources(&pool, &keys_b)).await.map_err(|e| format!("sign: {}", err_class(&e)))?;
                 signed.write(final_dir.join("metadata")).await.map_err(|e| format!("write: {e}"))?;
-                Ok(())
+                Ok(signed)
             }.await;
-            let b_ok = step("delegate-and-sign", phase_b, &mut steps);
+            final_signed = None;
+            let b_ok = step("delegate-and-sign", match phase_b { Ok(sr) => { final_signed = Some(sr); Ok(()) } Err(e) => Err(e) }, &mut steps);
             final_meta = if b_ok { Some(final_dir.join("metadata")) } else { None };
         }
 
@@ -455,17 +462,32 @@ async fn main() {
                     // publication: every listed target, by the library's own copy / link with an explicit name
                     let listed = repo.targets().signed.targets_map();
                     let mut downloads = Vec::new();
+                    let mut published = Vec::new();
+                    let mut wrong_refused: Option<bool> = None;
+                    let signed_repo = final_signed.as_ref().expect("a written repository has its signed form");
                     for (ti, nm) in names.iter().enumerate() {
                         let tname = tough::TargetName::new(nm.clone()).unwrap();
-                        if !listed.contains_key(&tname) { downloads.push(json!("unlisted")); continue; }
+                        if !listed.contains_key(&tname) { downloads.push(json!("unlisted")); published.push(json!("unlisted")); continue; }
                         let res = tname.resolved().to_string();
                         // the content this name was given last (what the owner publishes)
                         let alt = top_state.get(&ti) == Some(&Some(true));
                         let (src, content) = if alt { (alt_input.join(nm), &alt_contents[ti]) } else { (input.join(nm), &contents[ti]) };
                         let dest_rel = if cs { format!("{}.{}", hex::encode(sha256(content)), res) } else { res.clone() };
                         let dest = tdir.join(&dest_rel);
+                        // (the caller provides the sub-directories of the targets directory)
                         std::fs::create_dir_all(dest.parent().unwrap()).unwrap();
-                        if link { let _ = std::os::unix::fs::symlink(&src, &dest); } else { let _ = std::fs::copy(&src, &dest); }
+                        use tough::editor::signed::PathExists;
+                        // a file with other content offered under this name must be refused (once per program)
+                        if wrong_refused.is_none() {
+                            let probe = w.join("probe-targets");
+                            std::fs::create_dir_all(probe.join(&dest_rel).parent().unwrap()).unwrap();
+                            let wrong = if alt { input.join(nm) } else { alt_input.join(nm) };
+                            let r = if link { signed_repo.link_target(&wrong, &probe, PathExists::Fail, Some(&tname)).await } else { signed_repo.copy_target(&wrong, &probe, PathExists::Fail, Some(&tname)).await };
+                            let nothing_written = !probe.join(&dest_rel).exists();
+                            wrong_refused = Some(r.is_err() && nothing_written);
+                        }
+                        let r = if link { signed_repo.link_target(&src, &tdir, PathExists::Fail, Some(&tname)).await } else { signed_repo.copy_target(&src, &tdir, PathExists::Fail, Some(&tname)).await };
+                        published.push(json!(match &r { Ok(()) => if dest.exists() { "ok".to_string() } else { "ok-but-not-at-the-expected-path".to_string() }, Err(e) => format!("err:{}", e.to_string().chars().take(60).collect::<String>()) }));
                         let got = match repo.read_target(&tname).await {
                             Ok(Some(s)) => {
                                 use futures::StreamExt;
@@ -479,6 +501,8 @@ async fn main() {
                         downloads.push(json!(got));
                     }
                     imp["downloads"] = json!(downloads);
+                    imp["published"] = json!(published);
+                    imp["wrong_content_refused"] = json!(wrong_refused);
                 }
             }
         }
